@@ -79,6 +79,13 @@ META = {
         "R11: the nodes returned by `directive_instance.run()` get .line and .source (if unset) on every normal path before run_directive "
         "returns them, and every nested rST parse on the shared reporter (a docutils RSTParser subclass's parse()) sits in a try whose "
         "finally deletes/restores reporter.get_source_and_line. "
+        "R7 also requires a slice bound taken from an int option (start-line) to be normalised before it is used as the number of skipped "
+        "lines: slice(start, stop).indices(len(lines))[0], or a `< 0` guard adding the number of lines. R11(b) in full: an existing "
+        "reporter.get_source_and_line is set aside before the rST parse (docutils installs its own only when there is none), the rST one "
+        "is removed unconditionally in finally and the saved one put back. R12: records with a raw, text-relative map that markdown-it "
+        "leaves in the shared env (duplicate_refs) are reported inside nested_render_text at map + lineno + 1, only those added by this "
+        "parse (slice from the length taken before it), and deleted right after; only then may the end-of-document report use map + 1. "
+        "R1's class set includes comment nodes. "
         "R8: a value returned by a package function that was given a line (L1/P kind) is not stored in a mapping that outlives the call "
         "(module global, attribute, document/env) under a key that omits that line - a replay would carry the first occurrence's lines."
     ),
@@ -103,7 +110,7 @@ META = {
     ],
 }
 
-R1, R2, R3, R4, R5, R6, R7, R8, R9, R10, R11 = "C04.R1", "C04.R2", "C04.R3", "C04.R4", "C04.R5", "C04.R6", "C04.R7", "C04.R8", "C04.R9", "C04.R10", "C04.R11"
+R1, R2, R3, R4, R5, R6, R7, R8, R9, R10, R11, R12 = "C04.R1", "C04.R2", "C04.R3", "C04.R4", "C04.R5", "C04.R6", "C04.R7", "C04.R8", "C04.R9", "C04.R10", "C04.R11", "C04.R12"
 
 
 # ---------------------------------------------------------------------------
@@ -233,7 +240,7 @@ def _defs(fi: FunctionInfo, name: str) -> list[tuple[ast.stmt, ast.expr | None, 
 BLOCK_CLASSES = {
     "paragraph", "section", "title", "rubric", "bullet_list", "enumerated_list", "list_item", "block_quote",
     "literal_block", "target", "footnote", "definition_list", "definition_list_item", "term", "definition",
-    "field_list", "field", "field_name", "field_body", "table", "container", "math_block",
+    "field_list", "field", "field_name", "field_body", "table", "container", "math_block", "comment",
 }  # fmt: skip
 
 # functions whose unstamped constructions are evidence only, with the reason; shape re-verified on every run
@@ -1005,7 +1012,7 @@ def r2_line_kinds(corpus: Corpus, rep: Report, tier: str):
         work = [(cfi, call, arg_or_kw(call, idx, kwname), 0) for cfi, call in callers]
         while work:
             cfi, call, arg, lvl = work.pop()
-            if (sink.name, cfi.fq) not in NRT_CONVENTION and lvl < 2 and isinstance(arg, ast.Name) and arg.id in cfi.params and not _defs(cfi, arg.id):
+            if (sink.name, _key_owner(corpus, cfi).fq) not in NRT_CONVENTION and lvl < 2 and isinstance(arg, ast.Name) and arg.id in cfi.params and not _defs(cfi, arg.id):
                 ups = _real_callers(corpus, cfi)
                 if ups:
                     for ufi, ucall in ups:
@@ -1014,11 +1021,14 @@ def r2_line_kinds(corpus: Corpus, rep: Report, tier: str):
                     continue
             sites.append((cfi, call, arg))
         for cfi, call, arg in sorted(sites, key=lambda x: (x[0].fq, x[1].lineno, x[1].col_offset)):
-            ck = (sink.name, cfi.fq)
+            # a private helper that the tabled function is the only caller of stands for that function (body moved, same construct)
+            own = _key_owner(corpus, cfi).fq
+            ck = (sink.name, cfi.fq) if (sink.name, cfi.fq) in NRT_CONVENTION else (sink.name, own)
             site = cfi.module.site(call)
             rep.saw_call(site)
-            nth[cfi.fq] = nth.get(cfi.fq, 0) + 1
-            k = f"{cfi.fq}|{sink.name}|{kwname}={short(arg, 50) if arg is not None else '?'}" + (f"#{nth[cfi.fq]}" if nth[cfi.fq] > 1 else "")
+            nth[own] = nth.get(own, 0) + 1
+            nth[cfi.fq] = nth[own]
+            k = f"{own}|{sink.name}|{kwname}={short(arg, 50) if arg is not None else '?'}" + (f"#{nth[own]}" if nth[own] > 1 else "")
             if ck not in NRT_CONVENTION:
                 rep.error(R2, f"{site}: {cfi.qualname} calls {sink.name}() but has no entry in the convention table (does its text start ON, AFTER the anchor line, or at the START of a file?)")
                 continue
@@ -1042,10 +1052,12 @@ def r2_line_kinds(corpus: Corpus, rep: Report, tier: str):
                             continue
                     break
                 parts = [t_ for t_ in (_sum_terms(te) if te is not None else []) if not isinstance(t_, ast.Constant) and not (isinstance(t_, ast.IfExp) and isinstance(t_.body, ast.Constant) and isinstance(t_.orelse, ast.Constant))]
-                sfx_ = f"#{nth[cfi.fq]}" if nth[cfi.fq] > 1 else ""
-                ksyn = f"{cfi.fq}|{sink.name}|synthetic directive text" + sfx_
+                # identify the call by the directive it runs (stable when the calls are moved into helpers), else by its ordinal
+                a0_ = call.args[0] if call.args else None
+                sfx_ = f" ({a0_.value})" if isinstance(a0_, ast.Constant) and isinstance(a0_.value, str) else (f"#{nth[cfi.fq]}" if nth[cfi.fq] > 1 else "")
+                ksyn = f"{own}|{sink.name}|synthetic directive text" + sfx_
                 if len(parts) >= 2:
-                    rep.violation(R2, f"{cfi.fq}|{sink.name}|synthetic directive text with a body{sfx_}", site, f"{cfi.qualname} hands {sink.name}() a text glued together from made-up option lines and body text (`{short(te, 60)}`); the body is parsed at `{short(arg, 20)}` + the offset inside that made-up text, not at its place in the source (html_admonition: content on line 4 is reported at line 7)")
+                    rep.violation(R2, f"{own}|{sink.name}|synthetic directive text with a body{sfx_}", site, f"{cfi.qualname} hands {sink.name}() a text glued together from made-up option lines and body text (`{short(te, 60)}`); the body is parsed at `{short(arg, 20)}` + the offset inside that made-up text, not at its place in the source (html_admonition: content on line 4 is reported at line 7)")
                 else:
                     rep.ok(R2, ksyn, site, "made-up option lines only: nothing in them is located")
                 continue
@@ -1072,7 +1084,7 @@ def r2_line_kinds(corpus: Corpus, rep: Report, tier: str):
         sink = corpus.func(sink_fq.replace("myst_parser.", "", 1))
         tidx, tname = TEXT_ARG[sink.name]
         for cfi, call in sorted(_real_callers(corpus, sink), key=lambda x: (x[0].fq, x[1].lineno)):
-            conv = NRT_CONVENTION.get((sink.name, cfi.fq), (None, ""))[0]
+            conv = NRT_CONVENTION.get((sink.name, cfi.fq), NRT_CONVENTION.get((sink.name, _key_owner(corpus, cfi).fq), (None, "")))[0]
             if conv in (None, NOT_JUDGED):
                 continue
             e = arg_or_kw(call, tidx, tname)
@@ -1095,7 +1107,7 @@ def r2_line_kinds(corpus: Corpus, rep: Report, tier: str):
                     e = e.value
                 else:
                     break
-            k = f"{cfi.fq}|{sink.name}|text keeps its leading lines"
+            k = f"{_key_owner(corpus, cfi).fq}|{sink.name}|text keeps its leading lines"
             site = cfi.module.site(call)
             if chain:
                 op = chain[0]
@@ -2469,6 +2481,46 @@ def r7_start_accumulator(corpus: Corpus, rep: Report, tier: str):
                         flows = V in ln or any(v is not None and (ln & _names(v)) for _, v, _h in defs_v)
                         if flows:
                             rep.ok(R7, k, csite, f"{short(lower, 30)} leading line(s) cut and carried in `{V}`")
+                            # a slice bound taken from an int option can be negative (counts from the end of the file): the number
+                            # of skipped lines is then the normalised index, not the raw value
+                            from_option = any(
+                                isinstance(c_, ast.Call) and isinstance(c_.func, ast.Attribute) and c_.func.attr == "get" and c_.args and isinstance(c_.args[0], ast.Constant) and c_.args[0].value in LINE_OPTIONS
+                                for nm_ in ln
+                                for _s, v_, _h in _defs(fi, nm_)
+                                if v_ is not None
+                                for c_ in ast.walk(v_)
+                            )
+                            if from_option:
+                                kn = f"{_key_owner(corpus, fi).fq}|{sink_name}|negative {short(lower, 20)} normalised"
+                                norm = None
+                                live_defs = [(d_, v_, h_) for d_, v_, h_ in defs_v if d_ is None or not isinstance(d_, ast.stmt) or any(sk in cfg.reachable_from(d_) for sk in sink_stmts)]
+                                for d_, v_, h_ in live_defs:
+                                    if v_ is None or d_ is None:
+                                        continue
+                                    for c_ in ast.walk(v_):
+                                        # slice(a, b).indices(len(lines))[0]
+                                        if isinstance(c_, ast.Subscript) and isinstance(c_.value, ast.Call) and isinstance(c_.value.func, ast.Attribute) and c_.value.func.attr == "indices":
+                                            ic = c_.value
+                                            sl_ = ic.func.value
+                                            good_len = bool(ic.args) and isinstance(ic.args[0], ast.Call) and dotted(ic.args[0].func) == "len" and ic.args[0].args and K.is_lines(ic.args[0].args[0], fi)
+                                            good_slice = isinstance(sl_, ast.Call) and dotted(sl_.func) == "slice" and sl_.args and (_names(sl_.args[0]) & ln) and len(sl_.args) >= 2
+                                            idx0 = isinstance(c_.slice, ast.Constant) and c_.slice.value == 0
+                                            norm = ("ok", d_) if (good_len and good_slice and idx0) else ("bad", d_, "the start index is `slice(start, stop).indices(number of lines of the file)[0]`" + ("" if idx0 else "; element [0], not " + unparse(c_.slice)) + ("" if good_len else "; the length must be the number of LINES of the file") + ("" if good_slice else "; the slice must be built from the start-line option (and the end)"))
+                                    # if V < 0: V = max(len(lines) + V, 0)
+                                    gs = [unparse(t_) for t_, pol in get_cfg(fi).guards(d_) if pol] if isinstance(d_, ast.stmt) else []
+                                    if norm is None and any(g_.replace(" ", "") in (f"{V}<0", *(f"{n_}<0" for n_ in ln)) for g_ in gs):
+                                        has_len = any(isinstance(c_, ast.Call) and dotted(c_.func) == "len" and c_.args and K.is_lines(c_.args[0], fi) for c_ in ast.walk(v_))
+                                        norm = ("ok", d_) if has_len and (V in _names(v_) or ln & _names(v_)) else ("bad", d_, "under the `< 0` guard the count must become number-of-lines + start-line")
+                                if norm is None:
+                                    plain = all(v_ is None or isinstance(v_, (ast.BoolOp, ast.IfExp, ast.Name)) or (isinstance(v_, ast.Call) and isinstance(v_.func, ast.Attribute) and v_.func.attr == "get") for _d, v_, _h in live_defs if _h == "assign")
+                                    if plain:
+                                        rep.violation(R7, kn, csite, f"`{short(st, 60)}` slices with Python semantics (a negative `{short(lower, 20)}` counts from the end of the file) but `{V}` keeps the raw option value as the number of skipped lines: ':start-line: -4' on a 10-line file stamps the included paragraphs with lines -2 and 0")
+                                    else:
+                                        rep.error(R7, f"{csite}: cannot tell whether `{V}` is normalised for a negative `{short(lower, 20)}`")
+                                elif norm[0] == "ok":
+                                    rep.ok(R7, kn, fi.module.site(norm[1]), "index of the first included line, also for a negative option")
+                                else:
+                                    rep.violation(R7, kn, fi.module.site(norm[1]), f"`{short(norm[1], 70)}` does not turn a negative `{short(lower, 20)}` into the number of skipped lines: {norm[2]}")
                         else:
                             rep.violation(R7, k, csite, f"`{short(st, 60)}` cuts {short(lower, 30)} leading line(s) from the text but `{V}` (the line argument) never receives that count: every line of the included text is reported too low")
                     else:
@@ -2914,26 +2966,172 @@ def r11_directive_boundaries(corpus: Corpus, rep: Report, tier: str):
             n_b += 1
             k = f"{_key_owner(corpus, fi).fq}|{cname}().parse leaves no get_source_and_line on the reporter"
             site = fi.module.site(call)
-            ok = False
-            for a in ancestors(call):
-                if isinstance(a, ast.Try) and a.finalbody and any(call in ast.walk(s_) for s_ in a.body):
-                    for s_ in a.finalbody:
-                        for m in ast.walk(s_):
-                            if isinstance(m, ast.Delete) and any(isinstance(t, ast.Attribute) and t.attr == "get_source_and_line" for t in m.targets):
-                                ok = True
-                            for t, _tv in _assign_pairs(m):
-                                if isinstance(t, ast.Attribute) and t.attr == "get_source_and_line":
-                                    ok = True
-            if ok:
-                rep.ok(R11, k, site, "removed / restored in finally")
+            ATTR = "get_source_and_line"
+
+            def removals(node_: ast.AST) -> list[ast.AST]:
+                """Statements/calls under ``node_`` that take the line function off the reporter: del x.attr, delattr(x, attr), vars(x)/x.__dict__ .pop(attr, ...)."""
+                out_ = []
+                for m in ast.walk(node_):
+                    if isinstance(m, ast.Delete) and any(isinstance(t, ast.Attribute) and t.attr == ATTR for t in m.targets):
+                        out_.append(m)
+                    elif isinstance(m, ast.Call) and dotted(m.func) == "delattr" and len(m.args) == 2 and isinstance(m.args[1], ast.Constant) and m.args[1].value == ATTR:
+                        out_.append(m)
+                    elif isinstance(m, ast.Call) and isinstance(m.func, ast.Attribute) and m.func.attr == "pop" and m.args and isinstance(m.args[0], ast.Constant) and m.args[0].value == ATTR:
+                        out_.append(m)
+                return out_
+
+            tr_ = next((a for a in ancestors(call) if isinstance(a, ast.Try) and a.finalbody and any(call in ast.walk(s_) for s_ in a.body)), None)
+            if tr_ is None:
+                rep.violation(R11, k, site, f"`{short(call, 50)}` runs docutils' rST state machine on the shared reporter outside a try/finally: the reporter.get_source_and_line it installs stays behind, so later warnings of the Markdown document are mapped through the finished block's input lines (wrong file and line after an rST `.. include::`)")
+                continue
+            cfg = get_cfg(fi)
+            # 1. set aside before the parse: docutils installs its own line function only when the reporter has none, and only
+            #    that one knows the lines an rST `.. include::` splices in
+            pre = [m for s_ in fi.node.body for m in removals(s_) if m.lineno < tr_.lineno and cfg.dominates(cfg.stmt_of(m), tr_)]
+            saved = None
+            for m in pre:
+                p_ = parent(m)
+                if isinstance(p_, ast.Assign) and len(p_.targets) == 1 and isinstance(p_.targets[0], ast.Name):
+                    saved = p_.targets[0].id
+            # 2. after the parse: the rST function goes, the one set aside comes back
+            post_rm = [m for s_ in tr_.finalbody for m in removals(s_)]
+            unconditional_rm = [m for m in post_rm if parent(cfg.stmt_of(m)) is tr_ or cfg.stmt_of(m) in tr_.finalbody]
+            restores = [m for s_ in tr_.finalbody for m in ast.walk(s_) for t, tv in _assign_pairs(m) if isinstance(t, ast.Attribute) and t.attr == ATTR and isinstance(tv, ast.Name)]
+            problems = []
+            if not pre:
+                problems.append("an existing reporter.get_source_and_line (left by an earlier role/directive or set by an enclosing include) is not set aside before the parse, so docutils does not install its own and the lines an rST `.. include::` splices in are mapped to the wrong file/line")
+            if not post_rm:
+                problems.append("the line function the rST state machine installs is not removed in finally, so later warnings of the Markdown document are mapped through the finished block's input lines")
+            elif pre and not unconditional_rm:
+                problems.append("the rST line function is only removed under a condition in finally: when nothing had been set aside it stays behind")
+            if pre and saved is not None and not any(isinstance(tv, ast.Name) and tv.id == saved for m in restores for t, tv in _assign_pairs(m)):
+                problems.append(f"the line function set aside in `{saved}` (e.g. the one of an enclosing {{include}}) is not put back in finally: the rest of the included file reports the including file")
+            if pre and saved is None:
+                problems.append("the line function that was on the reporter before the parse is discarded instead of saved and restored")
+            if problems:
+                rep.violation(R11, k, site, f"`{short(call, 50)}` parses rST on the shared reporter: " + "; ".join(problems))
             else:
-                rep.violation(R11, k, site, f"`{short(call, 50)}` runs docutils' rST state machine on the shared reporter; RSTState.runtime_init installs reporter.get_source_and_line when it is absent and nothing removes it afterwards, so later warnings of the Markdown document are mapped through the finished block's input lines (wrong file and line after an rST `.. include::`)")
+                rep.ok(R11, k, site, f"set aside in `{saved}` before the parse; rST function removed and `{saved}` restored in finally")
     if n_b == 0:
         rep.error(R11, "no nested rST parse found")
     rep.expect_min(R11, 2, "the directive run in run_directive and the eval-rst parse")
 
 
-RULES = [r1_stamping, r2_line_kinds, r3_shift_once, r4_lossy_round_trip, r5_source_path, r6_body_offset_pairing, r7_start_accumulator, r8_line_free_cache, r9_anchor_fixed, r10_line_model, r11_directive_boundaries]
+# ---------------------------------------------------------------------------
+# R12 raw markdown-it map records kept in the shared env are reported at the start line of the text they were parsed from
+
+
+def _raw_map_reads(e: ast.AST) -> list[ast.Subscript]:
+    return [x for x in ast.walk(e) if isinstance(x, ast.Subscript) and isinstance(x.value, ast.Subscript) and isinstance(x.value.slice, ast.Constant) and x.value.slice.value == "map"]
+
+
+@rule(R12)
+def r12_env_map_records(corpus: Corpus, rep: Report, tier: str):
+    rep.rule(R12, "records with a raw (text-relative) map that markdown-it leaves in the shared env are reported by the render that parsed the text, at map + start line + 1, and removed there; the end-of-document report only sees top-level ones")
+    K = _kinds(corpus)
+    nrt = corpus.func(NESTED_RENDER)
+    line_param = LINE_SINKS[nrt.fq][1]
+    sites = []  # (fi, loop, list name, env key, line expr)
+    for fi in _funcs(corpus):
+        for loop in [n for n in fi.local_nodes() if isinstance(n, ast.For) and isinstance(n.target, ast.Name)]:
+            lv = loop.target.id
+            for c in [c for c in ast.walk(loop) if isinstance(c, ast.Call)]:
+                le = kwarg(c, "line")
+                if le is None:
+                    continue
+                if any(isinstance(r.value.value, ast.Name) and r.value.value.id == lv for r in _raw_map_reads(le)):
+                    it = loop.iter
+                    base = it.value if isinstance(it, ast.Subscript) else it
+                    envkey = None
+                    src = base
+                    if isinstance(base, ast.Name):
+                        ds = [v for _s, v, how in _defs(fi, base.id) if how == "assign" and v is not None]
+                        src = ds[0] if len(ds) == 1 else base
+                    for x in ast.walk(src):
+                        if isinstance(x, ast.Call) and isinstance(x.func, ast.Attribute) and x.func.attr == "get" and x.args and isinstance(x.args[0], ast.Constant) and "env" in unparse(x.func.value):
+                            envkey = x.args[0].value
+                        if isinstance(x, ast.Subscript) and isinstance(x.slice, ast.Constant) and isinstance(x.slice.value, str) and "env" in unparse(x.value):
+                            envkey = x.slice.value
+                    sites.append((fi, loop, base, envkey, le, c))
+    if not sites:
+        rep.error(R12, "no report of raw-map records (duplicate reference definitions) found")
+        return
+    nested_purges: set[str] = set()
+    for fi, loop, base, envkey, le, c in sites:
+        ko = _key_owner(corpus, fi).fq
+        site = fi.module.site(c)
+        flat = _sum_terms(le)
+        if any(isinstance(t_, ast.BinOp) for t_ in flat):
+            rep.error(R12, f"{site}: line of the {envkey} report `{short(le, 50)}` is not a plain sum; not understood")
+            continue
+        n_map = sum(1 for t_ in flat if _raw_map_reads(t_))
+        const = sum(t_.value for t_ in flat if isinstance(t_, ast.Constant) and isinstance(t_.value, int))
+        others = [unparse(t_) for t_ in flat if not _raw_map_reads(t_) and not (isinstance(t_, ast.Constant) and isinstance(t_.value, int))]
+        if ko == nrt.fq or line_param in fi.params and fi.fq == nrt.fq:
+            k = f"{ko}|{envkey} reported at map + {line_param} + 1"
+            if n_map == 1 and others == [line_param] and const == 1:
+                rep.ok(R12, k, site, "text-relative map + start of the text + 1")
+            else:
+                rep.violation(R12, k, site, f"`line={short(le, 50)}`: a record markdown-it made while parsing this nested text has a map relative to that text; its line is map + `{line_param}` + 1, the call passes {' + '.join(['map'] * n_map + others)} {const:+d} - the warning names a line inside the directive body / included file as if it were a line of the document")
+            # only the records of this parse: slice from the length taken before the parse; and they are removed afterwards
+            it = loop.iter
+            lower = it.slice.lower if isinstance(it, ast.Subscript) and isinstance(it.slice, ast.Slice) else None
+            parses = [x for x in fi.local_nodes() if isinstance(x, ast.Call) and isinstance(x.func, ast.Attribute) and x.func.attr in ("parse", "parseInline") and "self.md" in unparse(x.func.value)]
+            k2 = f"{ko}|only the {envkey} records of this parse are reported"
+            ok2 = False
+            if isinstance(lower, ast.Name) and parses:
+                ds = [(s_, v) for s_, v, how in _defs(fi, lower.id) if how == "assign" and v is not None and s_ is not None]
+                ok2 = len(ds) == 1 and isinstance(ds[0][1], ast.Call) and dotted(ds[0][1].func) == "len" and (envkey is None or repr(envkey).strip("'\"") in unparse(ds[0][1])) and ds[0][0].lineno < min(p_.lineno for p_ in parses)
+            if ok2:
+                rep.ok(R12, k2, fi.module.site(loop), f"from `{lower.id}` = length before the parse")
+            else:
+                rep.violation(R12, k2, fi.module.site(loop), f"`for … in {short(it, 40)}`: the records that earlier (enclosing or sibling) texts left in the shared env are reported again, shifted by this text's start line; iterate from the length the list had before this parse")
+            k3 = f"{ko}|reported {envkey} records are removed from the shared env"
+            lst = _stmt_list_of(loop)
+            sibs = getattr(lst[1], lst[0][1], [])
+            after = sibs[sibs.index(loop) + 1 :] if loop in sibs else []
+            purged = False
+            for s_ in after:
+                if isinstance(s_, ast.Delete) and isinstance(base, ast.Name):
+                    for t in s_.targets:
+                        if isinstance(t, ast.Subscript) and isinstance(t.value, ast.Name) and t.value.id == base.id and isinstance(t.slice, ast.Slice) and t.slice.upper is None and lower is not None and t.slice.lower is not None and unparse(t.slice.lower) == unparse(lower):
+                            purged = True
+                if isinstance(s_, ast.Assign) and isinstance(base, ast.Name) and any(isinstance(t, ast.Subscript) and isinstance(t.value, ast.Name) and t.value.id == base.id and isinstance(t.slice, ast.Slice) and lower is not None and t.slice.lower is not None and unparse(t.slice.lower) == unparse(lower) for t in s_.targets) and isinstance(s_.value, (ast.List, ast.Tuple)) and not s_.value.elts:
+                    purged = True
+            if purged:
+                nested_purges.add(str(envkey))
+                rep.ok(R12, k3, fi.module.site(loop), "deleted right after they are reported")
+            else:
+                rep.violation(R12, k3, fi.module.site(loop), f"the {envkey} records reported here stay in the shared env: the end-of-document report names them a second time, with the text-relative line and the outer document's path")
+        else:
+            k = f"{ko}|{envkey} reported at map + 1"
+            if n_map == 1 and not others and const == 1:
+                rep.ok(R12, k, site, "top-level records: 0-based map + 1")
+            else:
+                rep.violation(R12, k, site, f"`line={short(le, 50)}` is not the record's 0-based map line + 1")
+    # cooperation: a report outside nested_render_text only sees top-level records if nested_render_text removes its own
+    for fi, loop, base, envkey, le, c in sites:
+        if _key_owner(corpus, fi).fq != nrt.fq:
+            k = f"{_key_owner(corpus, fi).fq}|{envkey} of nested texts never reach the end-of-document report"
+            if str(envkey) in nested_purges:
+                rep.ok(R12, k, fi.module.site(loop), "nested_render_text reports and removes the records of nested texts")
+            else:
+                rep.violation(R12, k, fi.module.site(loop), f"{fi.name} reports every {envkey} record at map + 1 with the document's path, but nested_render_text does not report-and-remove the records of the texts it parses: a duplicate on lines 1/8 of a {{note}} body on line 3 is warned about as line 8 of the document (true 11), one inside an included file with the including file's path")
+    rep.expect_min(R12, 3, "the nested and the end-of-document report of duplicate reference definitions")
+    # bookkeeping (evidence only): a known finding of this property that no rule reports any more was either repaired or lost by a re-keying
+    try:
+        from ..report import load_known
+
+        reported = {(v.rule, v.key) for v in rep.violations()}
+        for kf in load_known().get("known", []):
+            props = kf.get("property")
+            if PROP in (props if isinstance(props, list) else [props]) and (kf.get("rule"), kf.get("key")) not in reported:
+                rep.note(f"known finding no longer reported (repaired, or its key moved): {kf.get('rule')} {kf.get('key')}")
+    except Exception:  # pragma: no cover - bookkeeping must never change a verdict
+        pass
+
+
+RULES = [r1_stamping, r2_line_kinds, r3_shift_once, r4_lossy_round_trip, r5_source_path, r6_body_offset_pairing, r7_start_accumulator, r8_line_free_cache, r9_anchor_fixed, r10_line_model, r11_directive_boundaries, r12_env_map_records]
 
 
 # ---------------------------------------------------------------------------
@@ -3232,8 +3430,7 @@ def mutants(corpus: Corpus):
     co_ = kwarg(cb, "content_offset") if cb is not None else None
     add("c04-directive-offset-shifted-but-still-relative", R2, base, co_, f"{unparse(co_)} + 1" if co_ is not None else "", "is relative to the directive")
     h2 = corpus.mod("mdit_to_docutils.html_to_nodes")
-    f = h2.func("html_to_nodes")
-    img = sorted((n for n in f.local_nodes() if isinstance(n, ast.Call) and isinstance(n.func, ast.Attribute) and n.func.attr == "run_directive"), key=lambda c: c.lineno)
+    img = sorted((n for f_ in h2.functions.values() if not f_.is_lambda for n in f_.local_nodes() if isinstance(n, ast.Call) and isinstance(n.func, ast.Attribute) and n.func.attr == "run_directive"), key=lambda c: c.lineno)
     if img:
         a2 = arg_or_kw(img[0], 2, "content")
         add("c04-html-image-text-gets-a-body", R2, h2, a2, f'{unparse(a2)} + "\\n\\n" + child.render()' if a2 is not None else "", "synthetic directive text with a body")
@@ -3328,6 +3525,44 @@ def mutants(corpus: Corpus):
         if inner is not None:
             add("c04-revert-included-text-split-on-newline-only", R10, mk, inner, "file_content.splitlines()", "splitlines")
 
+    # ---- R12: 2c7edff (duplicate reference definitions of nested texts)
+    f = base.func("DocutilsRenderer.nested_render_text")
+    dloop = find_stmt(f, lambda s: isinstance(s, ast.For) and any(_raw_map_reads(kw.value) for c in ast.walk(s) if isinstance(c, ast.Call) for kw in c.keywords if kw.arg == "line"))
+    if dloop is not None:
+        sibs_ = getattr(parent(dloop), "body", [])
+        dstmt = next((x for x in sibs_[sibs_.index(dloop) + 1 :] if isinstance(x, ast.Delete)), None) if dloop in sibs_ else None
+        lkw = next(kw for c in ast.walk(dloop) if isinstance(c, ast.Call) for kw in c.keywords if kw.arg == "line")
+        if dstmt is not None:
+            src2 = splice(base.src, dstmt, "pass")
+            src2 = splice(src2, dloop, "pass")
+            out.append(Mutant("c04-revert-nested-duplicate-refs-reported-in-place", R12, base.rel, src2, expect="never reach the end-of-document report"))
+            add("c04-nested-duplicate-refs-not-removed", R12, base, dstmt, "pass", "are removed from the shared env")
+        else:
+            out.append(("c04-revert-nested-duplicate-refs-reported-in-place", "removal of the reported records not found"))
+        terms_ = [t_ for t_ in _sum_terms(lkw.value) if isinstance(t_, ast.Name)]
+        add("c04-nested-duplicate-refs-line-without-start", R12, base, lkw.value, " + ".join(unparse(t_) for t_ in _sum_terms(lkw.value) if not isinstance(t_, ast.Name)), "reported at map +", canary=True)
+        if isinstance(dloop.iter, ast.Subscript):
+            add("c04-nested-duplicate-refs-reported-from-the-start", R12, base, dloop.iter, unparse(dloop.iter.value), "records of this parse")
+    else:
+        out.append(("c04-revert-nested-duplicate-refs-reported-in-place", "report loop not found in nested_render_text"))
+    # ---- R11 (b): 78a9223 (line function set aside before the rST parse, restored after)
+    f = base.func("DocutilsRenderer.render_restructuredtext")
+    popst = find_stmt(f, lambda s: isinstance(s, ast.Assign) and isinstance(s.value, ast.Call) and isinstance(s.value.func, ast.Attribute) and s.value.func.attr == "pop" and "get_source_and_line" in unparse(s.value))
+    trr = find_stmt(f, lambda s: isinstance(s, ast.Try) and s.finalbody and "parse(" in unparse(s.body[0]))
+    if popst is not None and trr is not None:
+        add("c04-revert-line-function-set-aside-before-rst-parse", R11, base, popst.value, 'getattr(self.reporter, "get_source_and_line", None)', "get_source_and_line")
+        rest_ = next((x for x in trr.finalbody if isinstance(x, ast.If)), None)
+        add("c04-line-function-not-restored-after-rst-parse", R11, base, rest_, "pass", "get_source_and_line")
+        rm_ = next((x for x in trr.finalbody if isinstance(x, ast.Expr) and "pop(" in unparse(x)), None)
+        add("c04-rst-line-function-left-behind", R11, base, rm_, "pass", "get_source_and_line")
+    else:
+        out.append(("c04-revert-line-function-set-aside-before-rst-parse", "set-aside / try-finally around the eval-rst parse not found"))
+    # ---- R1: 6c6451a (line comments are stamped)
+    f = base.func("DocutilsRenderer.render_myst_line_comment")
+    stc_ = _stamp_stmt(f, "comment")
+    add("c04-revert-line-comment-stamped", R1, base, stc_, "pass", "render_myst_line_comment")
+    add("c04-line-comment-stamped-only-with-content", R1, base, stc_, "if token.content.strip():\n            self.add_line_and_source_path(comment, token)", "render_myst_line_comment")
+
     # ---- R7
     f = mk.func("MockIncludeDirective.run")
     aug = find_stmt(f, lambda s: isinstance(s, ast.AugAssign) and unparse(s.target) == "startline" and any(isinstance(a_, ast.For) for a_ in ancestors(s)))
@@ -3349,8 +3584,15 @@ def mutants(corpus: Corpus):
         out.append(Mutant("c04-start-after-partition-counts-before-only", R7, mk.rel, src2, expect="cut file_content = after"))
     else:
         out.append(("c04-start-after-partition-counts-before-only", "start-after block shape changed"))
-    st = find_stmt(f, lambda s: isinstance(s, ast.Assign) and unparse(s.targets[0]) == "startline" and isinstance(s.value, ast.BoolOp))
+    st = find_stmt(f, lambda s: isinstance(s, ast.Assign) and unparse(s.targets[0]) == "startline" and (isinstance(s.value, ast.BoolOp) or ".indices(" in unparse(s.value)))
     add("c04-start-line-count-reset", R7, mk, st.value if st is not None else None, "0", "overwrites")
+    # d006345: a negative start-line is normalised to the index of the first included line
+    if st is not None and ".indices(" in unparse(st.value):
+        add("c04-revert-negative-start-line-normalised", R7, mk, st.value, "startline or 0", "normalised")
+        idx_ = next((x for x in ast.walk(st.value) if isinstance(x, ast.Subscript) and isinstance(x.slice, ast.Constant)), None)
+        add("c04-start-line-takes-the-stop-index", R7, mk, idx_.slice if idx_ is not None else None, "1", "normalised")
+        ln_ = next((x for x in ast.walk(st.value) if isinstance(x, ast.Call) and dotted(x.func) == "len"), None)
+        add("c04-start-line-normalised-against-characters", R7, mk, ln_.args[0] if ln_ is not None else None, "file_content", "normalised")
     # the same defect with the lines of the file kept in a local first (the cut must still be seen)
     cut0 = find_stmt(f, lambda s: isinstance(s, ast.Assign) and unparse(s.targets[0]) == "file_content" and "startline:endline" in unparse(s.value).replace(" ", ""))
     sub0 = next((x for x in ast.walk(cut0.value) if isinstance(x, ast.Subscript) and isinstance(x.slice, ast.Slice)), None) if cut0 is not None else None
@@ -3358,8 +3600,7 @@ def mutants(corpus: Corpus):
         src2 = splice(mk.src, st.value, "0")
         src2 = splice(src2, cut0, f"kept_lines = {unparse(sub0.value)}\n" + " " * cut0.col_offset + ast.get_source_segment(mk.src, cut0).replace(ast.get_source_segment(mk.src, sub0.value), "kept_lines", 1))
         out.append(Mutant("c04-start-line-count-reset-with-hoisted-lines", R7, mk.rel, src2, expect="overwrites"))
-    else:
-        out.append(("c04-start-line-count-reset-with-hoisted-lines", "start-line cut already uses a hoisted lines local or changed shape"))
+    # else: the tree already keeps the lines in a local (covered by c04-start-line-count-reset)
     if st is not None:
         add("c04-included-text-leading-blank-lines-stripped", R7, mk, st, ast.get_source_segment(mk.src, st) + "\n" + " " * st.col_offset + 'file_content = file_content.lstrip("\\n")', "strips")
 
